@@ -9,6 +9,26 @@ CLAIMED = {
          "Decides a structural necessary condition for every input: in the type-checked program's refined call graph no function that writes persisted ledger state is reachable from any pre-execution entry point, and each entry point executes on an overlay it creates itself. It does not execute anything; it cannot miss a write path that exists in the source except through reflection/cgo, and it does not decide read-side effects.",
          "go/types + go/ssa + VTA(CHA) call graph of x/tools v0.29.0 are sound for non-reflective Go; eventbus actor mailboxes and logging are cut as asynchronous boundaries (table printed in evidence).",
          "DESIGN.md §4 C42"),
+ "C44": ("guard analysis (A2 cut-set reachability on SSA CFG with wrapper discovery) + must-pass-through on CacheDB contract functions",
+         "Decides structural necessary conditions for every input: every PutContract call site is unreachable unless GetContract reported not-destroyed (for the address of the stored contract); migration/destroy mark the old address destroyed before touching storage and every loop iteration moves+deletes; NeoVM storage writes are unreachable unless checkStorageContext succeeded. Does not decide that iteration-while-writing visits every entry.",
+         "Result convention of CacheDB.GetContract (item, destroyed, err); go/ssa CFG; one known finding (checkStorageContext accepts missing contracts) is listed in known_findings.json.",
+         "DESIGN.md §4 C44"),
+ "C06": ("guard analysis (A2) + who-may-call (A4) + same-value pairing (A13) on native ONT/ONG token code",
+         "Decides for all CFG paths: balance debits happen only in Transfer/TransferedFrom, only after CheckWitness of the debited account (or witness + allowance of exactly that owner/spender), stores only after the checked subtraction succeeded, debit and credit carry the same amount and the credit is on every success path; allowance stores are witness-guarded. Does not decide sums over call sequences.",
+         "Two loads of the same access path denote the same value inside one handler; SSA CFG of x/tools.",
+         "DESIGN.md §4 C06"),
+ "C16": ("guard analysis (A2) with all-checks-fail abstract interpretation over the transaction validator and VerifyMultiSignature",
+         "Decides for all inputs the structural necessary conditions of acceptance: no success without payer membership; signer set fed only on verified edges; no iteration over signature sets completes unverified; threshold sanity guards verification; verified data is tx.Hash(); multi-signature counts only distinct verified keys; VerifyTransaction needs both checks. Not cryptographic soundness.",
+         "EIP-155 transactions excluded (IsEipTx assumed false); go/ssa lowering of loops and short-circuit conditions.",
+         "DESIGN.md §4 C16"),
+ "C41": ("guard analysis (A2) on auth.verifyToken / verifySig and effect-guard analysis over registered handlers",
+         "Decides the only-if direction for all inputs: verifyToken is true only after verifySig, only on ContainsFunc==true, never on an expired entry (expiry judged against block time, on the same element whose role is used); every state-changing handler writes only after verifySig (or while no admin is set for initContractAdmin). Does not decide the 'if' direction.",
+         "Handlers are exactly those registered in RegisterAuthContract; NativeCall into the ONT ID contract is trusted to verify signatures (C45).",
+         "DESIGN.md §4 C41"),
+ "C45": ("effect-guard analysis (A2 lifted over helpers) with wrapper discovery from ContextRef.CheckWitness and the forall-loop idiom, over all registered ONT ID handlers",
+         "Decides for all inputs and all 52 registered handlers: every path to a CacheDB write passes a successful witness check and a successful identity-state check (valid for modification, never-existed for registration, so revoked ids stay revoked); group verification checks every listed signer; revoked / non-auth keys never pass. Does not decide that the witnessed key is the configured one beyond these guards.",
+         "verifyGroupSignature's signer loop is non-empty when verifyThreshold passed (table entry); handlers are those registered in RegisterIDContract.",
+         "DESIGN.md §4 C45"),
 }
 
 NOT_APPLICABLE = {
